@@ -35,6 +35,61 @@ fn byte_exact(name: &str) -> bool {
     )
 }
 
+
+/// third kind of door for the byte direction: the slice types, converted to the owned header
+/// (`XSlice::from_slice(b)?.to_header()`); every one of these has its own accessor code
+mod slice_doors {
+    use crate::neutral::NErr;
+    use crate::observe as ob;
+    use crate::observe::single::Dec;
+    use etherparse::*;
+
+    pub struct Door {
+        /// name of the HEADERS row whose generator, mask and re-decoders apply
+        pub row: &'static str,
+        pub name: &'static str,
+        pub run: fn(&[u8]) -> Result<Dec, NErr>,
+    }
+
+    macro_rules! dec {
+        ($h:expr) => {{
+            let h = $h;
+            Dec { value: format!("{:?}", h), consumed: h.header_len(), reencoded: h.to_bytes().to_vec(), header_len: h.header_len() }
+        }};
+    }
+
+    pub const DOORS: &[Door] = &[
+        Door { row: "Ethernet2Header", name: "Ethernet2HeaderSlice::to_header", run: |b| Ok(dec!(Ethernet2HeaderSlice::from_slice(b).map_err(|e| ob::nlen(&e))?.to_header())) },
+        Door { row: "Ethernet2Header", name: "Ethernet2Slice::to_header", run: |b| Ok(dec!(Ethernet2Slice::from_slice_without_fcs(b).map_err(|e| ob::nlen(&e))?.to_header())) },
+        Door { row: "LinuxSllHeader", name: "LinuxSllHeaderSlice::to_header", run: |b| Ok(dec!(LinuxSllHeaderSlice::from_slice(b).map_err(|e| ob::n_sll_slice_error(&e))?.to_header())) },
+        Door { row: "LinuxSllHeader", name: "LinuxSllSlice::to_header", run: |b| Ok(dec!(LinuxSllSlice::from_slice(b).map_err(|e| ob::n_sll_slice_error(&e))?.to_header())) },
+        Door { row: "SingleVlanHeader", name: "SingleVlanHeaderSlice::to_header", run: |b| Ok(dec!(SingleVlanHeaderSlice::from_slice(b).map_err(|e| ob::nlen(&e))?.to_header())) },
+        Door { row: "SingleVlanHeader", name: "SingleVlanSlice::to_header", run: |b| Ok(dec!(SingleVlanSlice::from_slice(b).map_err(|e| ob::nlen(&e))?.to_header())) },
+        Door { row: "MacsecHeader", name: "MacsecHeaderSlice::to_header", run: |b| Ok(dec!(MacsecHeaderSlice::from_slice(b).map_err(|e| ob::n_macsec_slice_error(&e))?.to_header())) },
+        Door { row: "MacsecHeader", name: "MacsecSlice::header.to_header", run: |b| Ok(dec!(MacsecSlice::from_slice(b).map_err(|e| ob::n_macsec_slice_error(&e))?.header.to_header())) },
+        Door {
+            row: "ArpPacket",
+            name: "ArpPacketSlice::to_packet",
+            run: |b| {
+                let h = ArpPacketSlice::from_slice(b).map_err(|e| ob::nlen(&e))?.to_packet();
+                Ok(Dec { value: format!("{:?}", h), consumed: h.packet_len(), reencoded: h.to_bytes().to_vec(), header_len: h.packet_len() })
+            },
+        },
+        Door { row: "Ipv4Header", name: "Ipv4HeaderSlice::to_header", run: |b| Ok(dec!(Ipv4HeaderSlice::from_slice(b).map_err(|e| ob::n_ipv4_header_slice_error(&e))?.to_header())) },
+        Door { row: "Ipv6Header", name: "Ipv6HeaderSlice::to_header", run: |b| Ok(dec!(Ipv6HeaderSlice::from_slice(b).map_err(|e| ob::n_ipv6_header_slice_error(&e))?.to_header())) },
+        Door { row: "IpAuthHeader", name: "IpAuthHeaderSlice::to_header", run: |b| Ok(dec!(IpAuthHeaderSlice::from_slice(b).map_err(|e| ob::n_auth_slice_error_v4(&e))?.to_header())) },
+        Door { row: "Ipv6RawExtHeader", name: "Ipv6RawExtHeaderSlice::to_header", run: |b| Ok(dec!(Ipv6RawExtHeaderSlice::from_slice(b).map_err(|e| ob::nlen(&e))?.to_header())) },
+        Door { row: "Ipv6FragmentHeader", name: "Ipv6FragmentHeaderSlice::to_header", run: |b| Ok(dec!(Ipv6FragmentHeaderSlice::from_slice(b).map_err(|e| ob::nlen(&e))?.to_header())) },
+        Door { row: "UdpHeader", name: "UdpHeaderSlice::to_header", run: |b| Ok(dec!(UdpHeaderSlice::from_slice(b).map_err(|e| ob::nlen(&e))?.to_header())) },
+        Door { row: "UdpHeader", name: "UdpSlice::to_header", run: |b| Ok(dec!(UdpSlice::from_slice(b).map_err(|e| ob::nlen(&e))?.to_header())) },
+        Door { row: "UdpHeader", name: "UdpSlice(lax)::to_header", run: |b| Ok(dec!(UdpSlice::from_slice_lax(b).map_err(|e| ob::nlen(&e))?.to_header())) },
+        Door { row: "TcpHeader", name: "TcpHeaderSlice::to_header", run: |b| Ok(dec!(TcpHeaderSlice::from_slice(b).map_err(|e| ob::n_tcp_slice_error(&e))?.to_header())) },
+        Door { row: "TcpHeader", name: "TcpSlice::to_header", run: |b| Ok(dec!(TcpSlice::from_slice(b).map_err(|e| ob::n_tcp_slice_error(&e))?.to_header())) },
+        Door { row: "Icmpv4Header", name: "Icmpv4Slice::header", run: |b| Ok(dec!(Icmpv4Slice::from_slice(b).map_err(|e| ob::nlen(&e))?.header())) },
+        Door { row: "Icmpv6Header", name: "Icmpv6Slice::header", run: |b| Ok(dec!(Icmpv6Slice::from_slice(b).map_err(|e| ob::nlen(&e))?.header())) },
+    ];
+}
+
 impl C08 {
     fn bytes_dir(&mut self, rep: &mut Report, rng: &mut Prng) {
         let ti = rng.usize_below(HEADERS.len());
@@ -60,8 +115,24 @@ impl C08 {
         }
         // "any accepted byte string": accepted through the slice door or through the io::Read door
         let read_door = rng.chance(1, 3);
+        // ... or through one of the slice types of this header
+        let slice_door: Option<&slice_doors::Door> = if !read_door && rng.chance(1, 2) {
+            let ds: Vec<&slice_doors::Door> = slice_doors::DOORS.iter().filter(|d| d.row == t.name).collect();
+            if ds.is_empty() {
+                None
+            } else {
+                Some(ds[rng.usize_below(ds.len())])
+            }
+        } else {
+            None
+        };
         let res = shell::guarded(|| {
-            let d = if read_door {
+            let d = if let Some(sd) = slice_door {
+                match (sd.run)(&input) {
+                    Ok(d) => d,
+                    Err(_) => return None,
+                }
+            } else if read_door {
                 let mut cur = Cursor::new(&input[..]);
                 match (t.read)(&mut cur, &input) {
                     Ok(mut d) => {
@@ -112,11 +183,18 @@ impl C08 {
                 return;
             }
         };
-        let door = if read_door { "[accepted by read]" } else { "" };
+        let door: String = match slice_door {
+            Some(sd) => format!("[accepted by {}]", sd.name),
+            None if read_door => "[accepted by read]".to_string(),
+            None => String::new(),
+        };
         let viol = |rep: &mut Report, what: &str, detail: String| {
             rep.violation(&format!("bytes|{}{}|{}", t.name, door, what), format!("{}{}: {}", t.name, door, detail), &input);
         };
-        rep.count(if read_door { "bytes.accepted_by_read" } else { "bytes.accepted_by_from_slice" });
+        match slice_door {
+            Some(sd) => rep.count(&format!("bytes.door.{}", sd.name)),
+            None => rep.count(if read_door { "bytes.accepted_by_read" } else { "bytes.accepted_by_from_slice" }),
+        }
         let header_part = &input[t.param_bytes..t.param_bytes + (d.consumed - t.param_bytes).min(input.len() - t.param_bytes)];
         if let Some(w) = &written {
             if !d.reencoded.is_empty() && w != &d.reencoded {
@@ -668,6 +746,7 @@ impl Monitor for C08 {
             ("bytes", tier.pick(3_000_000, 30_000_000)),
             ("values", tier.pick(1_500_000, 15_000_000)),
             ("setters", tier.pick(300_000, 3_000_000)),
+            ("api", tier.pick(300_000, 3_000_000)),
         ]
     }
 
@@ -676,6 +755,7 @@ impl Monitor for C08 {
             "bytes" => self.bytes_dir(rep, rng),
             "values" => self.values(rep, rng),
             "setters" => self.setters(rep, rng),
+            "api" => super::api::c08(rep, rng),
             _ => {}
         }
     }
